@@ -7,7 +7,12 @@ set -u
 V=/verif
 export GOFLAGS=-mod=mod GOPROXY=off GOSUMDB=off GOTOOLCHAIN=local
 ID="${1:?property id}"; TIER="${2:-quick}"
-B="$V/.build"; mkdir -p "$B"
+B="$V/.build"
+if [ -n "${VERIF_MUT:-}" ]; then
+  # mutation runs get binaries, scratch files, evidence and replays of their own
+  B="$V/.build-mut"; export VERIF_BUILD=.build-mut VERIF_OUT="$B/out"
+fi
+mkdir -p "$B"
 build() {
   (
     flock 9
@@ -15,7 +20,7 @@ build() {
     cp /repo/go.sum "$V/mc/go.sum" 2>/dev/null
     go build -o "$B/mkoverlay" ./cmd/mkoverlay || exit 2
     if [ -n "${VERIF_MUT:-}" ]; then
-      "$B/mkoverlay" -out "$B/overlay.json" -mut "$VERIF_MUT" || exit 2
+      "$B/mkoverlay" -out "$B/overlay.json" -scratch "$B/mut" -mut "$VERIF_MUT" || exit 2
     else
       "$B/mkoverlay" -out "$B/overlay.json" || exit 2
     fi
